@@ -90,3 +90,143 @@ fn emit_analysis_warnings__limit_hit() {
     kani::cover!(true, "cover: limit-hit path completed");
     std::mem::forget(r);
 }
+
+// =====================================================================================================
+// C09: static rules.  The resolver is run on hand-built ASTs (arena-free: static nodes); the analysis passes after
+// resolution are cut (stub of emit_analysis_warnings: they emit warnings only, never errors).
+// =====================================================================================================
+use crate::syntax::parser::{ArgList, BinaryOp, Expr, ParamList, Stmt, StringParts, UnaryOp};
+
+const SP0: Span = Range { start: 0, end: 0 };
+// std's per-process random SipHash keys come from getrandom(2) (foreign): fixed keys instead (HashSet semantics do not depend on them)
+fn random_state__fixed() -> std::hash::RandomState {
+    unsafe { std::mem::transmute::<(u64, u64), std::hash::RandomState>((0x0123_4567_89ab_cdef, 0x0fed_cba9_8765_4321)) }
+}
+fn emit_analysis_warnings__cut<'ast, 'res>(_r: &mut Resolver<'ast, 'res>)
+where
+    'ast: 'ast,
+    'res: 'res,
+{
+}
+
+// Contract of predeclare_block_functions used by the context-rule harnesses: every FunctionDef of the block is registered in
+// the facts and in the innermost function scope (the duplicate / reserved-name / parameter checks and the return-type
+// inference go through std's HashSet, whose SipHash + hashbrown code CBMC does not get through).
+fn predeclare__contract<'ast, 'res>(r: &mut Resolver<'ast, 'res>, block: BlockRef<'ast>)
+where
+    'ast: 'ast,
+    'res: 'res,
+{
+    let mut i = 0;
+    while i < block.stmts.len() {
+        if let Stmt::FunctionDef { name, name_span, params, body, .. } = block.stmts[i] {
+            let scope = r.current_scope();
+            let id = r.facts.push_function(name, params, Some(r.current_owner), scope, *name_span, body);
+            r.function_scopes.last_mut().unwrap().push(FunctionSig { name, id, param_names: params.params, name_span, return_type: ValueType::Dynamic });
+        }
+        i += 1;
+    }
+}
+
+fn error_count(r: &Resolver<'_, '_>) -> usize {
+    let mut n = 0;
+    let mut i = 0;
+    while i < r.errors.diagnostics.len() {
+        if r.errors.diagnostics[i].severity == Severity::Error {
+            n += 1;
+        }
+        i += 1;
+    }
+    n
+}
+
+static E_TRUE: Expr<'static> = Expr::Bool(true, SP0);
+static E_NUM: Expr<'static> = Expr::Number("1", SP0);
+static E_STR: Expr<'static> = Expr::String { parts: StringParts::Static("s"), span: SP0 };
+static E_NULL: Expr<'static> = Expr::Null(SP0);
+static E_ARR: Expr<'static> = Expr::Array { elements: &[], span: SP0 };
+static S_BREAK: Stmt<'static> = Stmt::Break { span: SP0 };
+static S_CONT: Stmt<'static> = Stmt::Continue { span: SP0 };
+static S_RET: Stmt<'static> = Stmt::Return { expr: None, span: SP0 };
+
+// check_function_body(params, body)
+//   ensures the body is checked with loop depth 0 (comot/next cannot leave the function) and inside the function (return legal);
+//           on return in_loop, current_function, current_owner and the scope stacks are exactly what they were (frame)
+// @harness property=C09,C06 fn=Resolver::check_function_body kind=bounded tier=quick cfg=release timeout=600 domain="bounded: body of one statement in {comot, next, return}; every enclosing loop depth 0..=3; enclosing function present or not"
+#[kani::proof]
+#[kani::unwind(6)]
+#[kani::stub(Resolver::predeclare_block_functions, predeclare__contract)]
+#[kani::stub(<crate::sys::unix::UnixVirtualMemory as crate::sys::VirtualMemory>::commit, bk::vm_commit_ok)]
+fn check_function_body__contract() {
+    function_body_case(0);
+    function_body_case(1);
+    function_body_case(2);
+}
+
+fn function_body_case(which: usize) {
+    let arena = bk::mk_arena(1);
+    static NOPARAMS: ParamList<'static> = ParamList { params: &[], param_spans: &[] };
+    static BODY_STMTS: [&Stmt<'static>; 3] = [&S_BREAK, &S_CONT, &S_RET];
+    let body: &'static Block<'static> = Box::leak(Box::new(Block { stmts: std::slice::from_ref(&BODY_STMTS[which]), span: SP0 }));
+    let mut r = Resolver::new(arena);
+    let root = r.facts.push_root_function(&EMPTY_BLOCK);
+    let outer_scope = r.facts.push_scope(None, root, SP0);
+    r.scope_stack.push(outer_scope);
+    r.variable_scopes.push(Vec::new_in(arena));
+    r.function_scopes.push(Vec::new_in(arena));
+    let fid = r.facts.push_function("f", &NOPARAMS, Some(root), outer_scope, SP0, body);
+    let depth: usize = kani::any();
+    kani::assume(depth <= 3);
+    let in_outer_fn: bool = kani::any();
+    r.in_loop = depth;
+    r.current_owner = root;
+    r.current_function = if in_outer_fn { Some(root) } else { None };
+
+    r.check_function_body(&NOPARAMS, body);
+
+    let legal = which == 2; // only `return` is legal directly in a function body
+    assert!((error_count(&r) == 0) == legal, "post: the body is checked with loop depth 0 and inside a function (comot/next rejected, return accepted), whatever encloses the definition");
+    assert!(r.in_loop == depth, "frame: loop depth restored");
+    assert!(r.current_function == if in_outer_fn { Some(root) } else { None }, "frame: enclosing function context restored");
+    assert!(r.current_owner == root, "frame: owner restored");
+    assert!(r.scope_stack.len() == 1 && r.variable_scopes.len() == 1 && r.function_scopes.len() == 1, "frame: scope stacks restored");
+    let _ = fid;
+    kani::cover!(depth == 3, "cover: function defined three loops deep");
+    kani::cover!(!in_outer_fn, "cover: top-level function");
+    std::mem::forget(r);
+}
+
+// comot / next outside any loop, return outside any function (check_stmt leaf rules).
+// AST nodes are always CONCRETE in these harnesses (a symbolic choice of node makes CBMC explore every arm of the 400-line
+// check_expr recursively and never finish); scalar resolver state is symbolic.
+fn leaf_case(which: usize) {
+    let arena = bk::mk_arena(1);
+    static STMTS3: [&Stmt<'static>; 3] = [&S_BREAK, &S_CONT, &S_RET];
+    let mut r = Resolver::new(arena);
+    let root = r.facts.push_root_function(&EMPTY_BLOCK);
+    let scope = r.facts.push_scope(None, root, SP0);
+    r.scope_stack.push(scope);
+    let depth: usize = kani::any();
+    kani::assume(depth <= 3);
+    let in_fn: bool = kani::any();
+    r.in_loop = depth;
+    r.current_owner = root;
+    r.current_function = if in_fn { Some(root) } else { None };
+    r.check_stmt(STMTS3[which]);
+    let legal = if which < 2 { depth > 0 } else { in_fn };
+    assert!((error_count(&r) == 0) == legal, "rule: comot/next legal iff loop depth > 0; return legal iff inside a function");
+    assert!(r.errors.diagnostics.len() == if legal { 0 } else { 1 }, "rule: exactly one diagnostic per violation");
+    kani::cover!(!legal, "cover: illegal placement rejected");
+    kani::cover!(legal, "cover: legal placement accepted");
+    std::mem::forget(r);
+}
+
+// @harness property=C09 fn=Resolver::check_stmt(Break|Continue)+check_return_stmt kind=proof tier=quick cfg=release timeout=600 domain="each of comot, next, return (concrete node); every loop depth 0..=3; inside a function or not"
+#[kani::proof]
+#[kani::unwind(6)]
+#[kani::stub(<crate::sys::unix::UnixVirtualMemory as crate::sys::VirtualMemory>::commit, bk::vm_commit_ok)]
+fn control_flow_statements__leaf_rules() {
+    leaf_case(0);
+    leaf_case(1);
+    leaf_case(2);
+}
